@@ -162,11 +162,11 @@ def _usage_worker(job):
         if case is None:
             continue
         case["long"] = ce.make_long_case(ops, strata, rng)
-        rec = {"si": si, "usage": case, "hits": [], "exc": None, "queries": []}
+        rec = {"si": si, "usage": case, "hits": [], "exc": None, "queries": [], "translations": []}
         try:
             rec["hits"] = [(k, m, d) for k, m, d in ce.finder_usage(sg, ops, case, pid, qlog=rec["queries"])]
             if case["long"] is not None:
-                rec["hits"] += [(k, m, d) for k, m, d in ce.finder_long_listing(sg, ops, case["long"], pid)]
+                rec["hits"] += [(k, m, d) for k, m, d in ce.finder_long_listing(sg, ops, case["long"], pid, tlog=rec["translations"])]
         except ce.CertError as e:
             rec["hits"] = [("formulas", str(e), {"usage": case})]
         except Exception as e:
@@ -392,6 +392,20 @@ def run_property(ctx, pid):
                            len(qbad), len(qrecs), qbad[0][0]["what"], qbad[0][1], qbad[0][0]["real"]) if qbad else "")
         ctx.coverage["query_cases"] = len(qrecs)
         ctx.coverage["query_answers"] = dict(collections.Counter("answered" if q["real"] >= 0 else "empty" for q in qrecs))
+    # the scanner model of the custom-symbol translation (Model/C05_SymTrans.v) against the real translated formulas
+    trecs = [t for r in urecs for t in r.get("translations", [])]
+    if built and trecs:
+        tres = ce.run_checker([t["line"] for t in trecs], nproc=core.NPROC)
+        tbad = [(t, a) for t, a in zip(trecs, tres) if a != t["real"]]
+        nwf = [t for t in trecs if not t["wf"]]
+        ctx.count(n=len(trecs))
+        ctx.obligation("correspondence:symbol-translation-model-vs-%s" % ("positionFormulas(xyzsymbols)" if pid == "C05" else "UFormulas(Usymbols)"),
+                       not tbad, "%d of %d translations differ, e.g. %r: model %r, implementation %r" % (
+                           len(tbad), len(trecs), tbad[0][0]["formula"], "".join(chr(c) for c in tbad[0][1] if 0 <= c < 256),
+                           "".join(chr(c) for c in tbad[0][0]["real"])) if tbad else "")
+        ctx.obligation("correspondence:formulas-meet-the-hypothesis-of-the-translation-theorem", not nwf,
+                       "%d formulas are not text-without-start-letters + parameter symbols, e.g. %r" % (len(nwf), nwf[0]["formula"]) if nwf else "")
+        ctx.coverage["translation_cases"] = len(trecs)
     ctx.obligation("correspondence:usage-patterns (shared arrays = fresh copies; eps 1e-3 / 1e-7; query histories = fresh object; custom symbols on long listings)",
                    not ubad, "; ".join("%s x%d" % kv for kv in ubad.items()))
 
